@@ -177,6 +177,67 @@ static void deflate_window_edge(void)
 					}
 }
 
+/* stored-block fallback while streaming: incompressible (and mixed) data much longer than the codec's internal 64 KiB buffer, levels
+ * 1-3, every named level-buffer size AND the sizes half-way between them (the token buffer's capacity decides where blocks close,
+ * and with it whether a block's input is still reachable when the codec decides to emit it as a stored block), input pieces from
+ * 1000 bytes to everything x output pieces 1000 / 65536 / 100000. Every piece is handed over in its own mapping and scribbled once
+ * consumed; the stream must decode to the input with both references. */
+static void deflate_stored_fallback(void)
+{
+	static uint8_t *W, *O;
+	static const int cpus[] = { CPU_BASE, CPU_SSE, CPU_AVX2, CPU_AVX512G2 };
+	static const int cins[] = { 5000, 20000, 32768, 65536, 100000, 1 << 30, 1000 };
+	static const int couts[] = { 1000, 65536, 100000 };
+	size_t WL = v_thorough ? 1 << 20 : 300000;
+	if (!W) {
+		W = malloc(1 << 20);
+		O = malloc((1 << 20) * 2 + 4096);
+	}
+	uint64_t unit = 1900000;
+	char key[400], why[256];
+	for (int level = 1; level <= 3; level++)
+		for (int zi = 0; zi < 8; zi++)
+			for (int kind = 0; kind < 2; kind++)
+				for (int ii = 0; ii < (v_thorough ? 7 : 6); ii++)
+					for (int oi = 0; oi < 3; oi++) {
+						if (!v_mine(unit++))
+							continue;
+						if (nfail > 20 || v_deadline_hit())
+							return;
+						uint32_t named[4] = { lvl_min[level], lvl_small[level], lvl_medium[level], lvl_default[level] };
+						uint32_t lbs = zi % 2 == 0 ? named[zi / 2] : zi == 7 ? lvl_xl[level] : (named[zi / 2] + named[zi / 2 + 1]) / 2;
+						if (kind == 0) fill_xorshift(W, WL, 77 + level); else fill_mixed(W, WL, 5 + level);
+						int cpu = cpus[(level + zi + ii + oi) % 4];
+						cpu_set_level(cpu);
+						struct cparams p = { level, NO_FLUSH, (zi + ii) % 3 == 0 ? IGZIP_DEFLATE : (zi + ii) % 3 == 1 ? IGZIP_GZIP : IGZIP_ZLIB, 0, 0, LB_MIN, API_CHUNKED, cins[ii], couts[oi] };
+						size_t cap = WL * 2 + 4096, outlen = 0;
+						struct isal_zstream *s = NULL;
+						C_LB_BYTES = lbs;
+						int r = c_deflate(&p, W, WL, O, cap, &outlen, &s);
+						C_LB_BYTES = 0;
+						v_eval();
+						snprintf(key, sizeof key, "stored-fallback level=%d level_buf_size=%u wrapper=%s cpu=%s input=%s:%zu in-pieces=%d out-pieces=%d", level, lbs, gz_name[p.gzip_flag], cpu_level_name[cpu],
+							 kind ? "mixed" : "incompressible", WL, cins[ii], couts[oi]);
+						if (r == -1000) {
+							v_violation(key, "fault %s", v_fault_desc());
+							nfail++;
+						} else if (r != COMP_OK || s->internal_state.state != ZSTATE_END) {
+							v_violation(key, "return %d state %d", r, s->internal_state.state);
+							nfail++;
+						} else if (!verify_deflate_output(O, outlen, p.gzip_flag, W, WL, 0, 0, NULL, 0, why, sizeof why) || !verify_with_zlib(O, outlen, p.gzip_flag, W, WL, why, sizeof why)) {
+							v_violation(key, "%s", why);
+							nfail++;
+						}
+						if (g_check()) {
+							v_violation(key, "%s", g_last_damage());
+							nfail++;
+						}
+						g_reset();
+						v_count("stored_fallback_runs", 1);
+						v_nontrivial(v_hash(O, outlen > 4096 ? 4096 : outlen, unit));
+					}
+}
+
 int main(int argc, char **argv)
 {
 	v_init(argc, argv, "C07");
@@ -189,6 +250,7 @@ int main(int argc, char **argv)
 	if (!v_part || !strcmp(v_part, "deflate-layers")) {
 		deflate_layers();
 		deflate_window_edge();
+		deflate_stored_fallback();
 	}
 	if (v_shard == 0) {
 		v_note("state = byte image of the caller-owned context (+ level buffer) and the harness cursor; key masks only regions the structure declares dead (tmp buffers beyond their valid counts); every transition is a real API call on fresh exact-size end-flush mappings, recycled mappings are PROT_NONE");
